@@ -195,9 +195,9 @@ theorem sys_served_found (c : Merge.Cfg) (f v : Bytes) (from_ to_ : Nat) (hot : 
       ∃ r, Merge.searchDocs c (storeFracs (fracs s) (.leaf (.lit f [.text v])) from_ to_) from_ to_ (offset + size) = some r ∧
         r.ids = ids.map keyOf)
     (coldT hotT : Replica.Tier) (oracle : List (List (Nat × Replica.Call) × List (Nat × Replica.Call)))
-    (hack : (Replica.storeDocuments coldT hotT oracle Replica.init).1 = true) (hS : hotT.S ≠ 0) (hR : 0 < hotT.R)
+    (hack : (Replica.storeDocuments coldT hotT oracle Replica.init).1 = true) (hS : hotT.S ≠ 0)
     (i : Spec.ID) (hwin : from_ ≤ i.mid ∧ i.mid ≤ to_)
-    (serve : ∀ s r, (s, r) ∈ (Replica.storeDocuments coldT hotT oracle Replica.init).2.hotLog →
+    (serve : ∀ s, (∀ r, r < hotT.R → (s, r) ∈ (Replica.storeDocuments coldT hotT oracle Replica.init).2.hotLog) →
       s < hot.length ∧ ∃ d ∈ storedDocs (fracs s), d.id = i ∧ (f, v) ∈ d.tokens) :
     ∃ ids t e, search hotArr coldArr offset size rev = .ok ids t e false false ∧
       i ∈ fullList (allDocs hot.length fracs) (.leaf (.lit f [.text v])) from_ to_ rev ∧
@@ -208,7 +208,7 @@ theorem sys_served_found (c : Merge.Cfg) (f v : Bytes) (from_ to_ : Nat) (hot : 
   obtain ⟨ids, t, e, h1, _, _, hsound, hcompl, hpage⟩ := sys_read c (.leaf (.lit f [.text v])) from_ to_ hot hotArr
     coldArr hh offset size hlim rev hdesc fracs hok hmax hne hall hans
   obtain ⟨s, hsFull⟩ := sys_ack_full_set coldT hotT oracle hack hS
-  obtain ⟨hlt, d, hdIn, hdid, hdtok⟩ := serve s 0 (hsFull 0 hR)
+  obtain ⟨hlt, d, hdIn, hdid, hdtok⟩ := serve s hsFull
   have hdAll : d ∈ allDocs hot.length fracs := sys_mem_allDocs _ fracs s hlt d hdIn
   have hmatch := sys_token_findable d f v hdtok
   have hw : inWindow from_ to_ d = true := by
@@ -250,8 +250,8 @@ theorem sys_i1_mixed (names : List Bytes) (from_ : Nat) (fs : List Merge.FracIdx
     exact ⟨d, sys_storedDocs_mono fs _ hin d hdIn, hdid, fun tok htok => hdtok tok htok ((hcov m hm).2 tok htok)⟩
 
 /-- **sys_ingest_to_read_sealed** (any mix of active and sealed fractions, no crash).  Shard `s` serves the fraction
-indexes `fracs s`, all well formed (`hok`: per fraction by `sys_active_frac_ok` / `sys_sealed_frac_ok`); every store
-that took the acknowledged bulk `B` is a shard that is read and `Holds` it - in a fraction that is still active or was
+indexes `fracs s`, all well formed (`hok`: per fraction by `sys_active_frac_ok` / `sys_sealed_frac_ok`); the shard
+all of whose replicas took the acknowledged bulk `B` (C09's full set) is a shard that is read and its serving store `Holds` it - in a fraction that is still active or was
 sealed from the pipeline's state.  Then for every meta of `B` and every token `field:value` of it (MID inside the
 window) the query `field:value` is answered completely, the meta's ID is in the ordered list (in the page when the page
 covers it), and every returned ID belongs to a stored matching document. -/
@@ -268,9 +268,9 @@ theorem sys_ingest_to_read_sealed (names : List Bytes) (c : Merge.Cfg) (f v : By
       ∃ r, Merge.searchDocs c (storeFracs (fracs s) (.leaf (.lit f [.text v])) from_ to_) from_ to_ (offset + size) = some r ∧
         r.ids = ids.map keyOf)
     (coldT hotT : Replica.Tier) (oracle : List (List (Nat × Replica.Call) × List (Nat × Replica.Call)))
-    (hack : (Replica.storeDocuments coldT hotT oracle Replica.init).1 = true) (hS : hotT.S ≠ 0) (hR : 0 < hotT.R)
+    (hack : (Replica.storeDocuments coldT hotT oracle Replica.init).1 = true) (hS : hotT.S ≠ 0)
     (B : List Collector.Meta)
-    (J : ∀ s r, (s, r) ∈ (Replica.storeDocuments coldT hotT oracle Replica.init).2.hotLog →
+    (J : ∀ s, (∀ r, r < hotT.R → (s, r) ∈ (Replica.storeDocuments coldT hotT oracle Replica.init).2.hotLog) →
       s < hot.length ∧ Holds names from_ (fracs s) B)
     (m : Collector.Meta) (hm : m ∈ B) (tok : Collector.MetaToken) (htok : tok ∈ m.tokens)
     (hfv : ActiveReach.splitTok tok.bytes = (f, v)) (hwin : from_ ≤ m.id.1 ∧ m.id.1 ≤ to_) :
@@ -281,9 +281,9 @@ theorem sys_ingest_to_read_sealed (names : List Bytes) (c : Merge.Cfg) (f v : By
       (∀ x ∈ ids, ∃ d ∈ allDocs hot.length fracs, d.id = toSpecID x.1 ∧ inWindow from_ to_ d = true ∧
         docMatches (.leaf (.lit f [.text v])) d = true) := by
   apply sys_served_found c f v from_ to_ hot hotArr coldArr hh offset size hlim rev hdesc fracs hok hmax hne hall hans
-    coldT hotT oracle hack hS hR (ActiveReach.toID m.id) hwin
-  intro s r hsr
-  obtain ⟨hlt, H⟩ := J s r hsr
+    coldT hotT oracle hack hS (ActiveReach.toID m.id) hwin
+  intro s hsr
+  obtain ⟨hlt, H⟩ := J s hsr
   obtain ⟨d, hdIn, hdid, hdtok⟩ := sys_i1_mixed names from_ (fracs s) B H m hm
   exact ⟨hlt, d, hdIn, hdid, by rw [← hfv]; exact hdtok tok htok⟩
 
